@@ -2,7 +2,4 @@
 HOOK_COMMITS = []
 NOT_APPLICABLE = {
     'C02': 'order of accuracy is a limit statement over a refinement family of converged solves (33x64 ... 513x1024 unknowns, transcendental solutions); there is no bounded real-arithmetic encoding an SMT solver could decide (DESIGN section 9)',
-    'C11': 'check not built yet in this revision',
-    'C12': 'check not built yet in this revision',
-    'C19': 'check not built yet in this revision',
 }
